@@ -160,8 +160,9 @@ def apply(q, ref, op, c, shape, hist):
 
 def build(shape, hist, c):
     """replay a history on a fresh queue; returns (queue, reference)"""
+    from ..core import Collector
     q, ref = fresh(shape)
-    quiet = type(c)()
+    quiet = Collector()
     for i, op in enumerate(hist):
         q2, ref = apply(q, ref, op, quiet, shape, hist[:i])
         if q2 is None:   # copy / clear_copy: continue on the derived queue
